@@ -76,6 +76,9 @@ class SectionOutput(Output):
         if not self.supports_ansi() and not self._formatter.force_ansi():
             return super(SectionOutput, self).write(string, flags=flags)
 
+        if not self._may_write(flags):
+            return
+
         erased_content = self._pop_stream_content_until_current_section()
 
         self.add_content(string)
